@@ -284,6 +284,116 @@ func c03Run(c *core.Ctx) {
 			}
 		}
 	}
+	// ---- E1x: xpath expressions of every kind at every place an xpath can be written or computed ----
+	xexprs := c03XPathExprs()
+	for _, it := range seeds {
+		if strings.HasPrefix(it.Name, "sample/") {
+			continue
+		}
+		var doc interface{}
+		if json.Unmarshal([]byte(it.Schema), &doc) != nil {
+			continue
+		}
+		inputs := it.Inputs
+		if len(inputs) > 2 {
+			inputs = inputs[:2]
+		}
+		for _, p := range gen.Positions(doc) {
+			if len(p.Path) == 0 {
+				continue
+			}
+			if k, ok := p.Path[len(p.Path)-1].(string); !ok || k != "xpath" {
+				continue
+			}
+			if _, ok := gen.Get(doc, p).(string); !ok {
+				continue
+			}
+			for _, xe := range xexprs {
+				idx++
+				if !c.Mine(idx) {
+					continue
+				}
+				text := gen.Marshal(gen.Replace(doc, p, xe))
+				cs := c03Case{Family: "xpath-expression:" + it.Name, Schema: text, InputS: inputs[0], Note: fmt.Sprintf("%s=%q", p, xe)}
+				c.Begin(func() interface{} { return cs })
+				sig, detail, acc := c03Schema(text, it.Name, inputs)
+				c.Eval(fmt.Sprintf("E1x|%s|%v", it.Name, acc))
+				c.Count("xpath_expression_schemas", 1)
+				if sig != "" {
+					report(sig, detail+"\nxpath: "+cs.Note, cs)
+				}
+			}
+		}
+		if c.TimeUp() {
+			return
+		}
+	}
+	{
+		xhdr := `"parser_settings":{"version":"omni.2.1","file_format_type":"xml"}`
+		xin := `<r><o k="1"><a>1</a><b>x</b><e>a='1' and b='x'</e></o><o><a>2</a><e>true()</e><e>position()</e></o></r>`
+		q := func(x string) string { b, _ := json.Marshal(x); return string(b) }
+		ctxs := []func(x string) string{
+			func(x string) string {
+				return `{"FINAL_OUTPUT":{"xpath":"/r/o","object":{"v":{"array":[{"xpath":` + q(x) + `}]}}}}`
+			},
+			func(x string) string {
+				return `{"FINAL_OUTPUT":{"xpath":"/r/o","object":{"v":{"xpath":` + q(x) + `,"object":{"w":{"xpath":"."}}}}}}`
+			},
+			func(x string) string {
+				return `{"FINAL_OUTPUT":{"xpath":"/r/o","object":{"v":{"custom_func":{"name":"concat","args":[{"xpath":` + q(x) + `},{"const":"|"}]}}}}}`
+			},
+			func(x string) string {
+				return `{"FINAL_OUTPUT":{"xpath":"/r/o","object":{"v":{"xpath_dynamic":{"const":` + q(x) + `}}}}}`
+			},
+			func(x string) string {
+				return `{"FINAL_OUTPUT":{"xpath":"/r/o","object":{"v":{"array":[{"xpath_dynamic":{"const":` + q(x) + `}}]}}}}`
+			},
+			func(x string) string {
+				return `{"FINAL_OUTPUT":{"xpath":"/r/o","object":{"v":{"xpath":` + q(x) + `,"template":"T"}}},"T":{"object":{"w":{"xpath":"."}}}}`
+			},
+			func(x string) string {
+				return `{"FINAL_OUTPUT":{"xpath":"/r/o","object":{"v":{"xpath":` + q(x) + `,"custom_func":{"name":"copy"}}}}}`
+			},
+			func(x string) string {
+				return `{"FINAL_OUTPUT":{"xpath":"/r/o","object":{"v":{"custom_func":{"name":"javascript_with_context","args":[{"const":"_node"}]},"xpath":` + q(x) + `}}}}`
+			},
+		}
+		for _, xe := range xexprs {
+			for ci, cx := range ctxs {
+				idx++
+				if !c.Mine(idx) {
+					continue
+				}
+				text := `{` + xhdr + `,"transform_declarations":` + cx(xe) + `}`
+				cs := c03Case{Family: "xpath-expression:context", Schema: text, InputS: xin, Note: fmt.Sprintf("context %d xpath %q", ci, xe)}
+				c.Begin(func() interface{} { return cs })
+				sig, detail, _ := c03Schema(text, "context", []string{xin})
+				c.Eval(fmt.Sprintf("E1x|ctx%d", ci))
+				c.Count("xpath_expression_schemas", 1)
+				if sig != "" {
+					report(sig, detail+"\n"+cs.Note, cs)
+				}
+			}
+		}
+		// the expression arrives with the INPUT: xpath_dynamic computed from a value of the record
+		dyn := `{` + xhdr + `,"transform_declarations":{"FINAL_OUTPUT":{"xpath":"/r/o","object":{"v":{"xpath_dynamic":{"xpath":"e"}},"all":{"array":[{"xpath_dynamic":{"xpath":"e"}}]}}}}}`
+		for _, xe := range xexprs {
+			idx++
+			if !c.Mine(idx) {
+				continue
+			}
+			esc := strings.NewReplacer("&", "&amp;", "<", "&lt;", ">", "&gt;").Replace(xe)
+			in := `<r><o><a>1</a><b>x</b><e>` + esc + `</e></o><o><a>2</a><e>a</e></o></r>`
+			cs := c03Case{Family: "xpath-expression:from-input", Schema: dyn, InputS: in, Note: fmt.Sprintf("xpath %q", xe)}
+			c.Begin(func() interface{} { return cs })
+			sig, detail, _ := c03Schema(dyn, "from-input", []string{in})
+			c.Eval("E1x|from-input")
+			c.Count("xpath_expression_schemas", 1)
+			if sig != "" {
+				report(sig, detail+"\n"+cs.Note, cs)
+			}
+		}
+	}
 	// raw byte strings as schemas
 	tokStrings([]string{"{", "}", "\"", ":", "a", "\xff"}, 6, func(s string, k int) bool {
 		idx++
@@ -500,4 +610,23 @@ func c03Run(c *core.Ctx) {
 func mustJSON(v interface{}) json.RawMessage {
 	b, _ := json.Marshal(v)
 	return b
+}
+
+// c03XPathExprs: expressions of every result kind of the xpath language (node-sets over every axis,
+// booleans from comparisons / and / or / functions, numbers, strings, every core function with and
+// without arguments, unions, filters, malformed ones).
+func c03XPathExprs() []string {
+	return []string{
+		".", "..", "/", "*", "@*", "a", "a/b", "//a", "//*", "a[1]", "a[last()]", "a[position()<3]", "a | b", "(a)", "(a | b)[1]", "a/..", "./a", "/r/o/a", "//o[a='1']", "a[.='1']",
+		"ancestor::*", "ancestor-or-self::*", "descendant::*", "descendant-or-self::node()", "following::*", "following-sibling::*", "preceding::*", "preceding-sibling::*", "parent::*", "self::node()", "child::a", "attribute::k",
+		"text()", "node()", "comment()", "processing-instruction()", "a/text()", "@k", "a/@k",
+		"a='1'", "a!='1'", "a<2", "a>=1", "a=b", "a='1' and b='x'", "a='1' or b='x'", "a and b", "a or b", "a and true()", "true() and a", "a='1' and true()", "not(a)", "not(a) and b", "(a='1')", "a='1' | b",
+		"true()", "false()", "last()", "position()", "count(a)", "count(*) > 0", "sum(a)", "floor(1.5)", "ceiling(1.5)", "round(1.5)", "number()", "number(a)", "string()", "string(a)", "name()", "name(a)", "local-name()",
+		"namespace-uri()", "boolean(a)", "boolean(1)", "concat(a,b)", "contains(a,'1')", "starts-with(a,'1')", "ends-with(a,'1')", "substring(a,1)", "substring(a,1,1)", "substring-before(a,'1')", "substring-after(a,'1')",
+		"string-length()", "string-length(a)", "normalize-space()", "normalize-space(a)", "translate(a,'1','2')", "reverse(a)", "matches(a,'1')", "replace(a,'1','2')", "lang('en')", "lower-case(a)",
+		"1", "-1", "1.5", "'s'", "\"s\"", "''", "1 + 1", "a + 1", "-a", "a * 2", "a div 0", "a mod 0", "1 div 0", "1 and 2", "'a' = 'a'", "1 = 1",
+		"a[true()]", "a[false()]", "a[b and true()]", "a[not(b)]", "a[position()]", "a[last()][1]", "a[1][1]", "a[b[c]]", "a[.=..]", "//*[.//*]", "a[count(b)]", "a[string()]", "a[1 div 0]", "a[0]", "a[-1]", "a['x']", "a[''])",
+		"", " ", "[", "]", "a[", "a]", "//", "///", "a//", "@", "a/@", "a::b", "child::", "a b", "a,b", "a=", "=a", "and", "or", "()", "(", "a |", "| a", "$a", "a[$b]", "1 2", "a/(b)", "a/(b and c)", "f()", "a:b", "a:*", "*:a", "@a:b",
+		"a[1", "a[1]]", "'unterminated", "a[.='x]", "//*[text()='1' and @k]", ".[a!='0' and b!='z']", "./.", "./..", "../..", "/..", "/.", "a/./b", ".//.",
+	}
 }
